@@ -178,7 +178,20 @@ pub open spec fn tok_is(i: AssetInfo, who: Seq<char>) -> bool { i matches AssetI
 //%fn contracts/halo-pair/src/contract.rs | - | receive_cw20
 //%%rewrite #1 /for pool in pools\.iter\(\)/ => for pool in it: pools.iter() ## name the loop's ghost iterator so the invariant can mention its position
 //%%sig
+//%if A
+    // C20 through the entry point: the LP token forwards a WithdrawLiquidity hook for `amount` burned by `sender`, with the same entitlement as withdraw_liquidity
+    requires
+        decode::<Cw20HookMsg>(cw20_msg.msg) matches Ok(Cw20HookMsg::WithdrawLiquidity {}),
+        old(deps.storage).pair_info is Some,
+        canon_of(info.sender.0@) == old(deps.storage).pair_info->Some_0.liquidity_token.0@,
+        ({ let pi = old(deps.storage).pair_info->Some_0; let w = deps.querier.world(); let s = w.tok_supply(human_of(pi.liquidity_token.0@)); let a = cw20_msg.amount.0 as nat;
+           0 < a <= s && forall|i0: AssetInfo, i1: AssetInfo| #![trigger normal_exact(i0, pi.asset_infos[0]), normal_exact(i1, pi.asset_infos[1])] normal_exact(i0, pi.asset_infos[0]) && normal_exact(i1, pi.asset_infos[1])
+              ==> c20_entitled(balance_of(w, i0, env.contract.address.0@), a, s) && c20_entitled(balance_of(w, i1, env.contract.address.0@), a, s) }),
+//%endif
     ensures
+//%if A
+        /*[C20 hook.withdraw.always-succeeds]*/ r is Ok,
+//%endif
         /*[C02,C01,C03,C14,C12 hook.swap.amount]*/ decode::<Cw20HookMsg>(cw20_msg.msg) matches Ok(Cw20HookMsg::Swap { offer_asset, belief_price, max_spread, to }) ==> r is Ok ==>
             offer_asset.amount == cw20_msg.amount,
         /*[C02,C14,C01,C03 hook.swap.sender-is-pool-token]*/ decode::<Cw20HookMsg>(cw20_msg.msg) matches Ok(Cw20HookMsg::Swap { offer_asset, belief_price, max_spread, to }) ==> r is Ok ==>
@@ -215,7 +228,20 @@ pub open spec fn tok_is(i: AssetInfo, who: Seq<char>) -> bool { i matches AssetI
 // ---- execute dispatch (C02: execute-swap only for native offers; C14 routing) ----
 //%fn contracts/halo-pair/src/contract.rs | - | execute
 //%%sig
+//%if A
+    requires
+        msg is Receive,
+        decode::<Cw20HookMsg>(msg->Receive_0.msg) matches Ok(Cw20HookMsg::WithdrawLiquidity {}),
+        old(deps.storage).pair_info is Some,
+        canon_of(info.sender.0@) == old(deps.storage).pair_info->Some_0.liquidity_token.0@,
+        ({ let pi = old(deps.storage).pair_info->Some_0; let w = deps.querier.world(); let s = w.tok_supply(human_of(pi.liquidity_token.0@)); let a = msg->Receive_0.amount.0 as nat;
+           0 < a <= s && forall|i0: AssetInfo, i1: AssetInfo| #![trigger normal_exact(i0, pi.asset_infos[0]), normal_exact(i1, pi.asset_infos[1])] normal_exact(i0, pi.asset_infos[0]) && normal_exact(i1, pi.asset_infos[1])
+              ==> c20_entitled(balance_of(w, i0, env.contract.address.0@), a, s) && c20_entitled(balance_of(w, i1, env.contract.address.0@), a, s) }),
+//%endif
     ensures
+//%if A
+        /*[C20 exec.withdraw.always-succeeds]*/ r is Ok,
+//%endif
         /*[C02,C01,C03,C14 exec.swap.native-only]*/ msg matches ExecuteMsg::Swap { offer_asset, belief_price, max_spread, to } ==> r is Ok ==> offer_asset.info is NativeToken,
         /*[C02,C09,C01,C03,C12 exec.swap.native-funds]*/ msg matches ExecuteMsg::Swap { offer_asset, belief_price, max_spread, to } ==> r is Ok ==>
             (offer_asset.info matches AssetInfo::NativeToken { denom } ==> offer_asset.amount.0 as nat == attached(info.funds@, denom@)),
